@@ -71,8 +71,8 @@ func (R *Run) checkCursor(rule string, only func(name string) bool) int {
 		var buf ssa.Value
 		if sl, ok := cp.Call.Args[1].(*ssa.Slice); ok && sl.High == nil && sl.Max == nil && sl.Low != nil {
 			buf = sl.X
-			if f, ok := loadedField(sl.Low); ok {
-				if u, ok := sl.Low.(*ssa.UnOp); ok {
+			if f, ok := loadedField(stripConv(sl.Low)); ok {
+				if u, ok := stripConv(sl.Low).(*ssa.UnOp); ok {
 					if fa, ok := u.X.(*ssa.FieldAddr); ok && fa.X == ssa.Value(recv) {
 						cursorField = f
 					}
@@ -122,7 +122,7 @@ func (R *Run) checkCursor(rule string, only func(name string) bool) int {
 			good := false
 			if ok && bin.Op == token.ADD {
 				for _, pair := range [][2]ssa.Value{{bin.X, bin.Y}, {bin.Y, bin.X}} {
-					if f, ok := loadedField(pair[0]); ok && f == cursorField && pair[1] == ssa.Value(cp) {
+					if f, ok := loadedField(stripConv(pair[0])); ok && f == cursorField && stripConv(pair[1]) == ssa.Value(cp) {
 						good = true
 					}
 				}
@@ -149,7 +149,7 @@ func (R *Run) checkCursor(rule string, only func(name string) bool) int {
 					return
 				}
 				isCur := func(v ssa.Value) bool {
-					fl, ok := loadedField(v)
+					fl, ok := loadedField(stripConv(v))
 					return ok && fl == cursorField
 				}
 				isLen := func(v ssa.Value) bool {
@@ -182,11 +182,16 @@ func (R *Run) checkCursor(rule string, only func(name string) bool) int {
 					if !reach[ret.Block()] {
 						continue
 					}
-					nv := retValue(ret, 0)
-					ev := retValue(ret, 1)
-					g, _ := globalName(ev)
-					if c, ok := constInt(nv); !ok || c != 0 || g != "io.EOF" {
-						allEOF = false
+					// (a result merged in a phi is judged by the operands that arrive from the exhausted side)
+					for _, nv := range valuesVia(retValue(ret, 0), reach, e) {
+						if c, ok := constInt(nv); !ok || c != 0 {
+							allEOF = false
+						}
+					}
+					for _, ev := range valuesVia(retValue(ret, 1), reach, e) {
+						if g, _ := globalName(ev); g != "io.EOF" {
+							allEOF = false
+						}
 					}
 				}
 				if allEOF && edgeDominatesNot(fn, e, cp.Block()) {
@@ -203,17 +208,34 @@ func (R *Run) checkCursor(rule string, only func(name string) bool) int {
 			if len(ret.Block().Preds) == 0 && ret.Block() != fn.Blocks[0] {
 				continue // recover block
 			}
-			nv := retValue(ret, 0)
-			ev := retValue(ret, 1)
-			if nv == ssa.Value(cp) {
-				if !isNilConst(ev) {
-					g, _ := globalName(ev)
-					problems = append(problems, "data is returned together with error "+g+P.sym(ev)+" at "+P.ipos(ret)+" (io.ReadAll stops at the first chunk: longer records are truncated)")
+			// (count, error) pairs: results merged in phis of one block are paired operand by operand
+			type pair struct{ n, e ssa.Value }
+			pairs := []pair{{retValue(ret, 0), retValue(ret, 1)}}
+			if pn, ok := pairs[0].n.(*ssa.Phi); ok {
+				if pe, ok := pairs[0].e.(*ssa.Phi); ok && pe.Block() == pn.Block() && len(pe.Edges) == len(pn.Edges) {
+					pairs = pairs[:0]
+					for i := range pn.Edges {
+						pairs = append(pairs, pair{pn.Edges[i], pe.Edges[i]})
+					}
 				}
-				continue
 			}
-			if c, ok := constInt(nv); ok && c == 0 {
-				continue // (0, io.EOF) or (0, err)
+			unrec := false
+			for _, pr := range pairs {
+				nv, ev := pr.n, pr.e
+				if nv == ssa.Value(cp) {
+					if !isNilConst(ev) {
+						g, _ := globalName(ev)
+						problems = append(problems, "data is returned together with error "+g+P.sym(ev)+" at "+P.ipos(ret)+" (io.ReadAll stops at the first chunk: longer records are truncated)")
+					}
+					continue
+				}
+				if c, ok := constInt(nv); ok && c == 0 {
+					continue // (0, io.EOF) or (0, err)
+				}
+				unrec = true
+			}
+			if !unrec {
+				continue
 			}
 			undecided = append(undecided, "return of an unrecognised byte count at "+P.ipos(ret))
 		}
@@ -261,6 +283,26 @@ func shortField(f string) string {
 func edgeDominatesNot(fn *ssa.Function, e Edge, target *ssa.BasicBlock) bool {
 	// the guard block must dominate the copy block: every path to the copy evaluates the guard
 	return e.From.Dominates(target) || e.From == target
+}
+
+// valuesVia: the values v can take when control arrives through the blocks in reach (entered by edge e): phi
+// operands whose predecessor is not in reach are left out.
+func valuesVia(v ssa.Value, reach map[*ssa.BasicBlock]bool, e Edge) []ssa.Value {
+	phi, ok := v.(*ssa.Phi)
+	if !ok {
+		return []ssa.Value{v}
+	}
+	var out []ssa.Value
+	for i, op := range phi.Edges {
+		pred := phi.Block().Preds[i]
+		if reach[pred] || (pred == e.From && phi.Block() == e.To) {
+			out = append(out, valuesVia(op, reach, e)...)
+		}
+	}
+	if len(out) == 0 {
+		return []ssa.Value{v}
+	}
+	return out
 }
 
 // sameLoc: the same SSA value, or two loads of the same field of the same base value.
